@@ -399,14 +399,6 @@ package common
 //   cancelled: a context cancelled before the call makes the call fail (a poll happens on every path to success);
 //   surfaced:  a cancellation observed by any poll during the call makes the call fail;
 //   time:      logical poll time never runs backwards.
-//@ func ProcessSlot(ctx, spec, state) err
-//@   property C18
-//@   panics off
-//@   requires ctx != nil && state != nil
-//@   assigns anything, ghost(ctx_t), ghost(ctx_seen)
-//@   ensures cancelled: ctx_cancelled(ctx, old(ctx_t)) ==> err != nil
-//@   ensures surfaced: !old(ctx_seen) && ctx_seen ==> err != nil
-//@   ensures time: ctx_t >= old(ctx_t)
 
 // ---------------------------------------------------------------- active set (C07)
 // get_active_validator_indices: the indices with activation_epoch <= epoch < exit_epoch, in registry order.
@@ -473,3 +465,140 @@ package common
 //@     invariant split: j < 32 ==> (32 * i + j) / 32 == i && (32 * i + j) % 32 == j
 //@     invariant hash: h == sha256(cat(seed, le64(i)))
 //@     invariant scan: prop_scan(spec.MAX_EFFECTIVE_BALANCE, registry, spec.SHUFFLE_ROUND_COUNT % 256, active, seed, 0) == prop_scan(spec.MAX_EFFECTIVE_BALANCE, registry, spec.SHUFFLE_ROUND_COUNT % 256, active, seed, 32 * i + j)
+
+// kzg_commitment_to_versioned_hash: VERSIONED_HASH_VERSION_KZG ++ sha256(commitment)[1:]
+//@ sort KZGT = KZGCommitment
+//@ sort Hash32T = Hash32
+//@ ufun kzg_vhash(KZGT) Hash32T
+//@ axiom kzg_vhash_def: forall p KZGT :: {kzg_vhash(p)} kzg_vhash(p) == Hash32T(VERSIONED_HASH_VERSION_KZG, sha256(seq(p))[1], sha256(seq(p))[2], sha256(seq(p))[3], sha256(seq(p))[4], sha256(seq(p))[5], sha256(seq(p))[6], sha256(seq(p))[7], sha256(seq(p))[8], sha256(seq(p))[9], sha256(seq(p))[10], sha256(seq(p))[11], sha256(seq(p))[12], sha256(seq(p))[13], sha256(seq(p))[14], sha256(seq(p))[15], sha256(seq(p))[16], sha256(seq(p))[17], sha256(seq(p))[18], sha256(seq(p))[19], sha256(seq(p))[20], sha256(seq(p))[21], sha256(seq(p))[22], sha256(seq(p))[23], sha256(seq(p))[24], sha256(seq(p))[25], sha256(seq(p))[26], sha256(seq(p))[27], sha256(seq(p))[28], sha256(seq(p))[29], sha256(seq(p))[30], sha256(seq(p))[31])
+//@ func (p KZGCommitment) ToVersionedHash() out
+//@   property C18
+//@   opt noalloc
+//@   ensures out == kzg_vhash(p)
+//@   ensures version: out[0] == VERSIONED_HASH_VERSION_KZG
+//@   ensures hash: forall k :: {out[k]} 1 <= k && k < 32 ==> out[k] == sha256(seq(p))[k]
+
+// state getters used by payload processing: assumed not to write any memory the caller can see (C18)
+//@ func (s BeaconState) Slot() (r, err)
+//@   trusted
+//@ func (s BeaconState) GenesisTime() (r, err)
+//@   trusted
+//@ func (s BeaconState) RandaoMixes() (r, err)
+//@   trusted
+//@ func (s BeaconState) LatestBlockHeader() (r, err)
+//@   trusted
+//@   ensures err == nil ==> r != nil
+//@ func (m RandaoMixes) GetRandomMix(epoch) (r, err)
+//@   trusted
+
+// what the execution engine was asked and how often the payload header was stored (set by the forks' engine models, C18)
+//@ ghost n_eng_notify int
+//@ ghost n_set_exec_header int
+
+// the fork-specific transition steps behind the state interface: assumed to satisfy the same pattern
+// (each implementation is verified against it: <fork>.BeaconStateView.ProcessEpoch / ProcessBlock, UpgradeMaybe)
+//@ func (s BeaconState) ProcessEpoch(ctx, spec, epc) err
+//@   trusted
+//@   assigns anything, ghost(ctx_t), ghost(ctx_seen)
+//@   ensures cancelled: ctx_cancelled(ctx, old(ctx_t)) ==> err != nil
+//@   ensures surfaced: !old(ctx_seen) && ctx_seen ==> err != nil
+//@   ensures polled: err == nil && ctx_t > old(ctx_t) ==> !ctx_cancelled(ctx, old(ctx_t))
+//@   ensures time: ctx_t >= old(ctx_t)
+//@ func (s BeaconState) ProcessBlock(ctx, spec, epc, benv) err
+//@   trusted
+//@   assigns anything, ghost(ctx_t), ghost(ctx_seen), ghost(n_eng_notify), ghost(n_set_exec_header)
+//@   ensures cancelled: ctx_cancelled(ctx, old(ctx_t)) ==> err != nil
+//@   ensures surfaced: !old(ctx_seen) && ctx_seen ==> err != nil
+//@   ensures polled: err == nil && ctx_t > old(ctx_t) ==> !ctx_cancelled(ctx, old(ctx_t))
+//@   ensures time: ctx_t >= old(ctx_t)
+//@ func (s UpgradeableBeaconState) UpgradeMaybe(ctx, spec, epc) err
+//@   trusted
+//@   assigns anything, ghost(ctx_t), ghost(ctx_seen)
+//@   ensures surfaced: !old(ctx_seen) && ctx_seen ==> err != nil
+//@   ensures polled: err == nil && ctx_t > old(ctx_t) ==> !ctx_cancelled(ctx, old(ctx_t))
+//@   ensures time: ctx_t >= old(ctx_t)
+
+// BEGIN C18 generated (tools/gen_c18.py in /verif)
+// cancelled: a context cancelled before the call makes it fail; surfaced: a cancellation observed by a poll
+// during the call makes it fail; polled: success after a poll means the context was not cancelled at entry.
+
+//@ func ProcessHeader(ctx, spec, state, header, expectedProposer) err
+//@   property C18
+//@   panics off
+//@   requires ctx != nil
+//@   opt weakcalls
+//@   opt inline=closures
+//@   assigns anything, ghost(ctx_t), ghost(ctx_seen)
+//@   ensures cancelled: ctx_cancelled(ctx, old(ctx_t)) ==> err != nil
+//@   ensures surfaced: !old(ctx_seen) && ctx_seen ==> err != nil
+//@   ensures polled: err == nil && ctx_t > old(ctx_t) ==> !ctx_cancelled(ctx, old(ctx_t))
+//@   ensures time: ctx_t >= old(ctx_t)
+//@   loop *
+//@     invariant ctx_t >= old(ctx_t) && (old(ctx_seen) || !ctx_seen)
+//@     invariant ctx_t > old(ctx_t) ==> !ctx_cancelled(ctx, old(ctx_t))
+
+//@ func ProcessSlot(ctx, unused1, state) err
+//@   property C18
+//@   panics off
+//@   requires ctx != nil
+//@   opt weakcalls
+//@   opt inline=closures
+//@   assigns anything, ghost(ctx_t), ghost(ctx_seen)
+//@   ensures cancelled: ctx_cancelled(ctx, old(ctx_t)) ==> err != nil
+//@   ensures surfaced: !old(ctx_seen) && ctx_seen ==> err != nil
+//@   ensures polled: err == nil && ctx_t > old(ctx_t) ==> !ctx_cancelled(ctx, old(ctx_t))
+//@   ensures time: ctx_t >= old(ctx_t)
+//@   loop *
+//@     invariant ctx_t >= old(ctx_t) && (old(ctx_seen) || !ctx_seen)
+//@     invariant ctx_t > old(ctx_t) ==> !ctx_cancelled(ctx, old(ctx_t))
+
+//@ func ProcessSlots(ctx, spec, epc, state, slot) err
+//@   property C18
+//@   panics off
+//@   requires ctx != nil
+//@   opt weakcalls
+//@   opt inline=closures
+//@   assigns anything, ghost(ctx_t), ghost(ctx_seen)
+//@   ensures cancelled: ctx_cancelled(ctx, old(ctx_t)) ==> err != nil
+//@   ensures surfaced: !old(ctx_seen) && ctx_seen ==> err != nil
+//@   ensures polled: err == nil && ctx_t > old(ctx_t) ==> !ctx_cancelled(ctx, old(ctx_t))
+//@   ensures time: ctx_t >= old(ctx_t)
+//@   loop *
+//@     invariant ctx_t >= old(ctx_t) && (old(ctx_seen) || !ctx_seen)
+//@     invariant ctx_t > old(ctx_t) ==> !ctx_cancelled(ctx, old(ctx_t))
+//@   loop 1
+//@     invariant ctx_t == old(ctx_t) ==> currentSlot < slot
+
+//@ func StateTransition(ctx, spec, epc, state, benv, validateResult) err
+//@   property C18
+//@   panics off
+//@   requires ctx != nil
+//@   opt weakcalls
+//@   opt inline=closures
+//@   assigns anything, ghost(ctx_t), ghost(ctx_seen)
+//@   ensures cancelled: ctx_cancelled(ctx, old(ctx_t)) ==> err != nil
+//@   ensures surfaced: !old(ctx_seen) && ctx_seen ==> err != nil
+//@   ensures polled: err == nil && ctx_t > old(ctx_t) ==> !ctx_cancelled(ctx, old(ctx_t))
+//@   ensures time: ctx_t >= old(ctx_t)
+//@   loop *
+//@     invariant ctx_t >= old(ctx_t) && (old(ctx_seen) || !ctx_seen)
+//@     invariant ctx_t > old(ctx_t) ==> !ctx_cancelled(ctx, old(ctx_t))
+//@   assigns ghost(n_eng_notify), ghost(n_set_exec_header)
+
+//@ func PostSlotTransition(ctx, spec, epc, state, benv, validateResult) err
+//@   property C18
+//@   panics off
+//@   requires ctx != nil
+//@   opt weakcalls
+//@   opt inline=closures
+//@   assigns anything, ghost(ctx_t), ghost(ctx_seen)
+//@   ensures cancelled: ctx_cancelled(ctx, old(ctx_t)) ==> err != nil
+//@   ensures surfaced: !old(ctx_seen) && ctx_seen ==> err != nil
+//@   ensures polled: err == nil && ctx_t > old(ctx_t) ==> !ctx_cancelled(ctx, old(ctx_t))
+//@   ensures time: ctx_t >= old(ctx_t)
+//@   loop *
+//@     invariant ctx_t >= old(ctx_t) && (old(ctx_seen) || !ctx_seen)
+//@     invariant ctx_t > old(ctx_t) ==> !ctx_cancelled(ctx, old(ctx_t))
+//@   assigns ghost(n_eng_notify), ghost(n_set_exec_header)
+
+// END C18 generated
